@@ -4,7 +4,7 @@ import json, subprocess, sys
 pid, wt = sys.argv[1], sys.argv[2]
 base = subprocess.run(["python3", "/verif/tools/seed_prompt.py", pid, wt], capture_output=True, text=True).stdout
 prev = []
-for suffix in ("a", "b", "c", "d", "e", "f", "g", "h"):
+for suffix in ("a", "b", "c", "d", "e", "f", "g", "h", "i", "j"):
     try:
         m = json.load(open("/verif/seeded/%s-%s/meta.json" % (pid, suffix)))
         prev.append("(%s) %s (it needed: %s)" % (suffix, m.get("summary", ""), m.get("needs", "")))
